@@ -452,12 +452,15 @@ def step (st : St) (op impl : String) : St × StepOut :=
           if v.packetLen > max maxSize asked then
             let single := match minCryptoOffset fs with | some mo => cryptoFrameLen mo (cryptoBytes fs) | none => 0
             let overhead := v.payloadLen - single
+            -- the two listed findings are NARROW: the excess must be explained by the frames the builder added on
+            -- top of the single CRYPTO frame the packer budgeted (without them the packet would have fitted)
+            let explained := decide (v.packetLen - overhead ≤ max maxSize asked)
             let cls := match spec.builder with
-              | .random rf => if rf.length > 0 ∧ rf.minPad ≥ 1 then (if overhead > paddingReserve then "random_frames_overhead_exceeds_reserve" else "-")
-                              else if overhead > 0 then "builder_frames_not_budgeted" else "-"
+              | .random rf => if rf.length > 0 ∧ rf.minPad ≥ 1 then (if overhead > paddingReserve ∧ explained then "random_frames_overhead_exceeds_reserve" else "-")
+                              else if overhead > 0 ∧ explained then "builder_frames_not_budgeted" else "-"
               | .flight _ => "-"
               | .randFlight _ => "-"
-              | _ => if overhead > 0 then "builder_frames_not_budgeted" else "-"
+              | _ => if overhead > 0 ∧ explained then "builder_frames_not_budgeted" else "-"
             fails := fails ++ [("within_max_packet_size", cls, s!"datagram {i}: packet {v.packetLen} > max {maxSize} (payload {v.payloadLen}, one-frame size {single})")]
         -- decryptable: the independent opener, and the live server when there is one
         let fullPN := intendedPN spec i
@@ -468,7 +471,7 @@ def step (st : St) (op impl : String) : St × StepOut :=
           fails := fails ++ [("decryptable", cls, s!"datagram {i}: server did not process Initial pn {fullPN} (received {im.srv})")]
         if d.status == "ok" then largest := max largest fullPN
     -- ---------------- tags
-    let tags := [builderTag spec.builder, if c.live then "mode:live" else "mode:dead", s!"n:{min im.n 5}", s!"err:{(im.err.splitOn ":").take 2 |> ":".intercalate}"] ++
+    let tags := [builderTag spec.builder, if c.live then "mode:live" else "mode:dead", if kvOf ws "shr" == "1" then "conf:shared" else "conf:fresh", s!"n:{min im.n 5}", s!"err:{(im.err.splitOn ":").take 2 |> ":".intercalate}"] ++
       (match spec.token with | .none => ["tok:none"] | .explicit _ => ["tok:explicit"] | .synth _ _ => ["tok:synth"]) ++
       [if spec.dcidLen = 0 then "dcid:default" else if spec.dcidLen < 8 then "dcid:short" else "dcid:fixed",
        if spec.scidLen = 0 then "scid:empty" else "scid:fixed",
